@@ -54,9 +54,9 @@ def remove_node_loop_specs(world_box):
     def inv(incoming):
         def fn(vm, fr):
             world = world_box[0]
-            pre = world.pre
+            pre = getattr(world, "entry", None) or world.pre      # the state at the entry of remove_node
             S = world.S
-            i0 = pre.idx(world.w0.fields["wid"])
+            i0 = world.pre.idx(world.w0.fields["wid"])
             fs = []
             key = stream_of(vm, fr, incoming)
             k = vm.ctx.ghost.get(key, 0) if key else 0
